@@ -74,6 +74,16 @@ def noCacheDec (dec : Nat → Nat) (store : Pairs) : PairMsg → Pairs × Option
   | .remove k ok => (if ok then pdel store k else store, none)
   | .use k => (store, (pget store k).map dec)
 
+/-- events that commit every write they execute: delivered transactions that succeed, lookups (delivered or served — a
+served lookup only fills the cache from the store), restarts.  Not: a served or failing registration / removal. -/
+def committing : Ev PairMsg → Bool
+  | .deliver (.register _ _ ok) => ok
+  | .deliver (.remove _ ok) => ok
+  | .deliver (.use _) => true
+  | .serve (.use _) => true
+  | .serve _ => false
+  | .restart => true
+
 /-- every cached entry is what the store holds -/
 def coherent (cache store : Pairs) : Prop := ∀ k v, pget cache k = some v → pget store k = some v
 
